@@ -93,9 +93,23 @@ class Check(PropertyCheck):
                 self.nontrivial.add(t)
             if i < 3:
                 self.sample({"input": t, "scales": [s1, s2]})
+            def backdrop(root):
+                for e in root.children:
+                    if e.tag == "rect" and "backdrop" in e.attrs.get("class", "").split():
+                        return e
+                return None
+            ba, bb = backdrop(A), backdrop(B)
             if not relational.close(F(A.attrs["width"]) * f, F(B.attrs["width"])) or \
                not relational.close(F(A.attrs["height"]) * f, F(B.attrs["height"])):
                 fails.append(Failure("canvas does not scale", case))
+            elif ba is None or bb is None or \
+                    not relational.close(F(ba.attrs["width"]), F(A.attrs["width"])) or \
+                    not relational.close(F(bb.attrs["width"]), F(B.attrs["width"])) or \
+                    not relational.close(F(ba.attrs["height"]), F(A.attrs["height"])) or \
+                    not relational.close(F(bb.attrs["height"]), F(B.attrs["height"])):
+                fails.append(Failure("the backdrop does not have the size of the canvas at both scales", case,
+                                     {"backdrop": [ba.attrs if ba is not None else None, bb.attrs if bb is not None else None],
+                                      "canvas": [[A.attrs["width"], A.attrs["height"]], [B.attrs["width"], B.attrs["height"]]]}))
             elif not relational.same_multiset(ca, cb):
                 fails.append(Failure("elements at scale %s are not those at scale %s times %s" % (s2, s1, f), case,
                                      relational.describe_diff(ca, cb)))
